@@ -429,6 +429,12 @@ class SendHeaders(Contract):
             return [("refused-before-any-byte-is-sent", wl(c, c.st) == wl(c, c.old))]
         return []
 
+    def effects(self, c):
+        # call mode: when the head is known to have been sent already, the call changes nothing (not even the ghost wire)
+        if const_true(T_(c, c.old, "headers_sent")):
+            so1, so0 = c.st.obj(F(c, c.st, "sock")), c.old.obj(F(c, c.old, "sock"))
+            so1.fields["g_wire"] = so0.fields["g_wire"]
+
     def post(self, c):
         st1, st0 = c.st, c.old
         hs0 = T_(c, st0, "headers_sent")
@@ -610,4 +616,108 @@ class RespClose(Contract):
             term = SStr([Lit(b"0\r\n\r\n")], False)
             out += [("chunked:exactly-one-terminating-chunk-appended", Implies(ch, tail_struct_eq(w1, w0, term))),
                     ("not-chunked:nothing-appended", Implies(Not(ch), wl(c, st1) == wl(c, st0)))]
+        return out
+
+
+# ======================================================================================================
+# sendfile / write_file
+# ======================================================================================================
+from pyvc.env import STUBS, R1   # noqa: E402
+from .sockmodel import oserr
+
+
+def _os_lseek(ex, st, self_v, args, kwargs, node):
+    # os.lseek(fd, pos, how): SEEK_CUR(1) with pos 0 -> current offset ; SEEK_SET(0) -> sets the offset. May raise OSError.
+    fd, pos, how = args
+    f = st.ghost.get("file_by_fd")
+    if f is None:
+        bad = st.fork()
+        return [ex.res(st, SInt(fresh_int("lseek"))), ex.res_exc(bad, oserr())]
+    fo = st.obj(f)
+    from pyvc.smt import const_int
+    h = const_int(how.t)
+    bad = st.fork()
+    if h == 1 and const_int(pos.t) == 0:
+        return [ex.res(st, fo.fields["g_offset"]), ex.res_exc(bad, oserr())]
+    if h == 0:
+        fo.fields["g_offset"] = pos
+        return [ex.res(st, pos), ex.res_exc(bad, oserr())]
+    return [ex.res(st, SInt(fresh_int("lseek"))), ex.res_exc(bad, oserr())]
+
+
+def _os_fstat(ex, st, self_v, args, kwargs, node):
+    f = st.ghost.get("file_by_fd")
+    bad = st.fork()
+    if f is None:
+        size = SInt(fresh_int("st_size"))
+    else:
+        size = SInt(st.obj(f).fields["g_content"].length())
+    return [ex.res(st, st.alloc(HObj("stat_result", {"st_size": size, "st_mtime": Opaque("mtime")}))), ex.res_exc(bad, oserr())]
+
+
+STUBS["os.lseek"] = _os_lseek
+STUBS["posix.lseek"] = _os_lseek
+STUBS["os.fstat"] = _os_fstat
+STUBS["posix.fstat"] = _os_fstat
+
+
+def mk_filewrapper(env, st):
+    env.use_class("gunicorn.http.wsgi", "FileWrapper")
+    f = mk_file(env, st)
+    st.ghost["file_by_fd"] = f
+    return st.alloc(HObj("FileWrapper", {"filelike": f, "blksize": SInt(8192)})), f
+
+
+@contract("gunicorn.http.wsgi:Response.sendfile", props=("C02", "C19"))
+class RespSendfile(Contract):
+    def cases(self, env):
+        out = []
+        for hs in (False, True):
+            st = base_state(env)
+            r = mk_response(env, st, headers_sent=hs)
+            seq = st.obj(st.obj(r).fields["headers"]).sym
+            st.assume(all_hdrs_ok(seq))
+            fw, f = mk_filewrapper(env, st)
+            out.append(("file,headers_sent=%s" % hs, st, {"self": r, "respiter": fw}, {}))
+        return out
+
+    def pre(self, c):
+        return RI_resp(c, c.st) + SendHeaders.pre(SendHeaders(), c) + [
+            ("chunked-flag-agrees-with-is_chunked", T_(c, c.st, "chunked") == spec_is_chunked(c, c.st))]
+
+    def modifies(self, c):
+        s = c.a["self"]
+        sock = F(c, c.st, "sock")
+        return [("field", sock, "g_wire", AnyStrShape(False)), ("field", sock, "g_wl"), ("field", s, "headers_sent", BoolShape()),
+                ("field", s, "g_hend"), ("field", s, "sent")]
+
+    def result_shape(self, c):
+        return BoolShape()
+
+    def raises(self, c):
+        return [(OSError, None, lambda c2: {"errno": SInt(fresh_int("errno"))}), (UnicodeEncodeError, None)]
+
+    def post(self, c):
+        st1, st0 = c.st, c.old
+        res = c.ex.truth(c.result, st1)
+        f = st0.obj(st0.obj(c.a["respiter"]).fields["filelike"])
+        content = f.fields["g_content"].single_win()
+        off = f.fields["g_offset"].t
+        has_len, L = opt_int(F(c, st0, "response_length"))
+        # what may still go out: the rest of the declared Content-Length, or the rest of the file
+        n = If(has_len, Max(L - F(c, st0, "sent").t, iv(0)), content.hi - content.lo - off)
+        ch = T_(c, st0, "chunked")
+        out = RI_resp(c, st1) + [
+            ("not-used=>nothing-happened", Implies(Not(res), And(wl(c, st1) == wl(c, st0), F(c, st1, "sent").t == F(c, st0, "sent").t,
+                                                                  T_(c, st1, "headers_sent") == T_(c, st0, "headers_sent")))),
+            ("used=>head-sent", Implies(res, T_(c, st1, "headers_sent"))),
+            ("used=>body-bytes-accounted:sent'==sent+n", Implies(res, F(c, st1, "sent").t == F(c, st0, "sent").t + n)),
+            ("file-offset-restored", st1.obj(st1.obj(c.a["respiter"]).fields["filelike"]).fields["g_offset"].t == off),
+        ]
+        if c.mode != "call" and const_true(T_(c, st0, "headers_sent")):
+            w1, w0 = wire(c, st1), wire(c, st0)
+            piece = mk_win(content.base, content.lo + off, content.lo + off + n, False)
+            out += [("identity:wire'==wire++file[off:off+n)", Implies(And(res, Not(ch)), Or(And(n == 0, wl(c, st1) == wl(c, st0)), tail_struct_eq(w1, w0, piece)))),
+                    ("chunked:one-chunk-with-the-file-bytes", Implies(And(res, ch, n > 0), tail_struct_eq(w1, w0, chunk_enc(piece, n)))),
+                    ("chunked:empty-file-emits-nothing(no-premature-terminator)", Implies(And(res, ch, n == 0), wl(c, st1) == wl(c, st0)))]
         return out
